@@ -2,5 +2,5 @@
 # usage: tools/try_mutant.sh <patch.diff> <Cxx> [Cyy ...]  — apply to /repo, run quick checks, undo
 patch="$1"; shift
 git -C /repo apply "$patch" || { echo "patch does not apply"; exit 2; }
-for p in "$@"; do /verif/check "$p" quick 2>&1 | tail -4; done
+for p in "$@"; do timeout 1200 /verif/check "$p" quick 2>&1 | tail -4; done
 git -C /repo checkout -- . && git -C /repo clean -fdq
